@@ -5,9 +5,36 @@ V = os.path.dirname(os.path.dirname(os.path.abspath(__file__)))
 props = [json.loads(l) for l in open(os.path.join(V, 'properties.jsonl'))]
 TECH = 'CBMC bounded symbolic execution of the real C functions (goto-cc build of /repo) + SAT verdict (kissat); counterexamples replayed natively (gcc+ASan)'
 CLAIMED = {
+ 'C02': dict(text='Bounded model checking of every parity generator of raid/int.c, raid/intz.c and (through a regenerated asm->C translation onto a virtual SSE2/SSSE3/AVX2 register file) raid/x86.c, raid/x86z.c, each called directly: for the enumerated disk counts all data bytes and the previous parity contents are symbolic and the solver shows parity_j = sum_i A[j][i]*D_i in GF(2^8)/0x11d with A recomputed from the Cauchy/power definition, data blocks and pointer vector untouched, no write outside the parity buffers (CBMC bounds checks). Every lookup table is tied to the field / matrix definition entry-wise with symbolic indices, and the x2/d2 bit tricks for all 2^64 words. Right level: the quantifier is over all data contents and all table entries; a wrong table column or a missed store needs one specific input the self-test never builds.',
+             note='nd enumerated (dense all-symbolic for small nd, three symbolic disks for large nd incl. 251), size 64/128 (8 for the byte-wise int8 kernels); trusted: cbmc, kissat, lib/asm2c.py + simd_emu.h (validated natively against the real instructions on every run; counterexamples are replayed against the real asm), lib/gf.py. Outside: other nd/sizes, CPU dispatch, store ordering, alignment.',
+             ref='DESIGN.md §3 C02'),
+ 'C03': dict(text='Bounded model checking of raid_rec / raid_data / raid_delta_gen / raid_rec1of1 / raid_rec2of2_int8 / raid_invert and the int8, SSSE3 and AVX2 decoders: for each enumerated failure index set the stripe is built from symbolic data with parity computed from the definition, the lost buffers (and unused parities) hold arbitrary garbage, and the solver shows every one of the nd+np buffers equals the original afterwards, the zero buffer and pointer vector are intact and no BUG_ON fires.',
+             note='failure index sets enumerated by the generator (listed per job), size 64; table() of raid/gf.h analysed through an equivalent substitute because of a CBMC 6.11 defect (equivalence is its own obligation). Outside: index sets not enumerated; large minors (Cauchy determinant theorem, not machine checked).',
+             ref='DESIGN.md §3 C03'),
+ 'C09': dict(text='Bounded model checking of the content-file decoders of cmdline/stream.c on an arbitrary byte string delivered in arbitrary chunks (memory safety by CBMC bounds/pointer checks + value semantics of every varint/string/token decoder), and of the CRC-32C seal (table-driven loops by induction from an arbitrary CRC state, SSE4.2 path through a translated util.h, tables entry-wise, no single-byte difference maps to zero).',
+             note='untrusted file <= 14 bytes, STREAM_SIZE 4; CRC lengths <= 12 (x86 path) / inductive steps (table path). Not covered here: the accept logic of state_read_content as a whole and the save-verify-rename sequence (see DESIGN.md C09-3/4). Trusted: cbmc, kissat, memory-file stubs, crc_emu.h.',
+             ref='DESIGN.md §3 C09'),
+ 'C10': dict(text='Bounded model checking of the codec pairs sputb32/sgetb32, sputb64/sgetb64, sputble32/sgetble32, sputbs/sgetbs through a real write stream whose flushes land in a memory file that a real read stream consumes in arbitrary chunks: get(put(v)) == v for every 32/64-bit value and every string within the bound, encoder length bounds, decoder consumes exactly what was produced.',
+             note='strings <= 6 bytes, STREAM_SIZE 4. Outside: record-level writer/reader round trips of state.c (not within reach as whole functions, see DESIGN.md C10-3).',
+             ref='DESIGN.md §3 C10'),
+ 'C13': dict(text='Rely-guarantee bounded model checking of the I/O ring of cmdline/io.c: every critical section of io_reader_step, io_writer_step, io_task_read_thread, io_parity_write_thread, io_read_next_thread, io_write_next_thread is executed from an arbitrary state satisfying a ring invariant, with thread_cond_wait modelled as "any other thread does anything that preserves the invariant". The solver shows the invariant is inductive, a worker never takes the slot the computing thread uses (exclusive buffer ownership), slots advance strictly in order, every position is scheduled exactly once in plan order, errors of writers are counted exactly once, and the waiter is woken when its guard turns true.',
+             note='io_max enumerated (3, 4, 128 quick), two representative readers/writers, <= 2 wake-ups per step; trusted: cbmc, kissat, pthread semantics, the invariant written in harness/C13_io.c. Outside: termination/fairness, scan threads, thread creation/join.',
+             ref='DESIGN.md §3 C13'),
+ 'C15': dict(text='Bounded model checking of the real state_scrub() plan computation together with the real block_is_enabled(), run as the command runs them, over symbolic per-stripe info words, clock, plan and age: bad stripes always, full = all used, new = never-scrubbed, percentage = oldest first, within the quota, none younger than the limit, and one-step progress.',
+             note='<= 4 stripes quick / 6 thorough; scrub loop replaced by a recorder of the selection; mark/clear rules are outside this check. Trusted: cbmc, kissat, stubs.',
+             ref='DESIGN.md §3 C15'),
+ 'C16': dict(cat='translation_validation', text='Translation validation of the current block-hash implementations (MurmurHash3_x86_128, SpookyHash128, MetroHash128 via memhash) against a frozen copy of the pinned tree for symbolic message and seed at every message length in the bound; CRC-32C and the varint/string codecs against their mathematical definition. Any change of a constant, rotation, tail rule or seed use yields a differing message.',
+             note='lengths 0..48 quick (murmur 0..99, spooky 0..229, metro 0..129 thorough); back end cvc5 for the hash miters. The reference is frozen source, not a reference binary. Parity coefficients: see C02 tables.',
+             ref='DESIGN.md §3 C16', tech='CBMC bounded symbolic execution of current vs frozen reference functions, equivalence decided by cvc5 / kissat'),
  'C17': dict(text='Bounded model checking of the real parity.c split arithmetic (parity_split_find, parity_read/write, parity_chsize and its static helpers) over an abstract file system: for every layout of <= 3 (quick) / 4 (thorough) splits with symbolic block-multiple sizes and symbolic per-file capacities the solver shows the prefix-sum bijection, no straddling, write/read reach the same (file, offset), resize post-conditions and position stability across one resize from any layout and across two resizes from an empty parity. Right level: pure integer/offset arithmetic with rare corner cases (capacity hit mid-growth, zero-size middle split) that no scripted test samples.',
              note='Assumes the abstract FS contract (grow iff <= capacity, shrink always succeeds), block size enumerated (powers of two listed in evidence), split count/size bounds as listed; trusted: cbmc, kissat, the FS stubs. Outside: real file systems, parity_open/create open() handling, byte-identity of concatenated splits (follows from the bijection + C06).',
              ref='DESIGN.md §3 C17'),
+ 'C18': dict(text='Bounded model checking of the real rule evaluation of cmdline/elem.c (filter_alloc_file parsing, filter_apply / filter_recurse / filter_element via filter_path, filter_subdir, filter_emptydir, filter_content) against a reference evaluator written from the documentation, with the glob matcher as an uninterpreted consistent function: pattern validity for every pattern string in the bound, and for every enumerated path structure and symbolic rule kinds / directions / matcher answers the same verdict as "first match decides, default opposite of the last rule, names per component, rooted patterns on the path".',
+             note='patterns <= 4 bytes, <= 2 rules quick / 3 thorough, path structures up to 3 components; libc fnmatch semantics and scan-time / -f -d -m -e use are outside. Trusted: cbmc, kissat, reference evaluator.',
+             ref='DESIGN.md §3 C18'),
+ 'C20': dict(text='Bounded model checking of esc_tag / esc_shell_multi (every name of arbitrary bytes within the bound is escaped injectively, contains no raw separator, and decodes back) and of the duplicate key computation hash_alloc (key = digest of exactly the sequence of block hashes; files with a block lacking an up-to-date hash get no key).',
+             note='names <= 4 bytes quick; memhash replaced by a recorder; pool, list and status output are outside (file-system walks / formatting). Narrow scope by design.',
+             ref='DESIGN.md §3 C20'),
 }
 NA_DEFAULT = 'check not built yet in this session (see DESIGN.md for the planned harness); not claimed'
 m = {
